@@ -56,21 +56,21 @@ func setup() {
 // ---------------------------------------------------------------------------
 
 type RuleCfg struct {
-	TCP     bool        `json:"tcp"`
-	Preset  bool        `json:"preset"` // "php" preset instead of ext/split/index
-	Env     [][2]string `json:"env"`
-	Except  string      `json:"except,omitempty"`
+	TCP    bool        `json:"tcp"`
+	Preset bool        `json:"preset"` // "php" preset instead of ext/split/index
+	Env    [][2]string `json:"env"`
+	Except string      `json:"except,omitempty"`
 }
 
 type Req struct {
-	Method  string              `json:"method"`
-	Target  string              `json:"target"`
-	Header  [][2]string         `json:"header"`
-	BodyLen int                 `json:"body_len"`
-	CType   string              `json:"ctype"`
-	Script  fcgiref.Script      `json:"script"`
-	Status  int                 `json:"status"`  // status the responder announces (0 = no Status header)
-	RHeader [][2]string         `json:"rheader"` // responder headers
+	Method  string         `json:"method"`
+	Target  string         `json:"target"`
+	Header  [][2]string    `json:"header"`
+	BodyLen int            `json:"body_len"`
+	CType   string         `json:"ctype"`
+	Script  fcgiref.Script `json:"script"`
+	Status  int            `json:"status"`  // status the responder announces (0 = no Status header)
+	RHeader [][2]string    `json:"rheader"` // responder headers
 }
 
 type Case struct {
